@@ -25,6 +25,7 @@ func propC18(c *Ctx, r *Report) {
 	// R3 publish-after-commit
 	r.rule("C18-R3/publish-after-commit", 1, "the sync height read by API handlers is advanced only after Commit succeeded")
 	rulePublishAfterCommit(c, sa, r, "C18-R3/publish-after-commit")
+	ruleAPIWritesNothingSyncReads(c, newSharedAnalysis(c), r, "C18-R5/api-leaves-no-state")
 	r.rule("C18-R4/handler-goroutines", 1, "a goroutine started while serving a request cannot panic unrecovered")
 	{
 		panics := map[*ssa.Function]bool{}
@@ -197,6 +198,37 @@ func propC09(c *Ctx, r *Report) {
 		}
 		runErrflow(c, computeEffects(c), r, scope, "C09/cache-fill-errors", false)
 	}
+	// a restart by itself changes nothing in the ledger: the statements reachable from NewPegnetd that write are the
+	// schema set-up and the legacy fork markers, nothing else
+	r.rule("C09/startup-writes", 1, "start-up writes only schema objects and legacy fork markers")
+	{
+		cat := buildSQLCat(c)
+		rs := c.reach(c.Startup)
+		rs[c.Startup] = true
+		n := 0
+		ordn := newOrdinals()
+		for _, st := range cat.Stmts {
+			if !rs[st.Fn] || !st.isWrite() {
+				continue
+			}
+			n++
+			key := fmt.Sprintf("%s %s %s", fname(st.Fn), st.Verb, st.Table)
+			cons := fmt.Sprintf("%s %s", key, ord(ordn.next(key)))
+			switch {
+			case st.Verb == "CREATE" || st.Verb == "CREATE-INDEX" || st.Verb == "ALTER" || st.Verb == "DROP":
+				r.okNT("C09/startup-writes", cons, c.ipos(st.Site), "schema object")
+			case st.Table == "pn_sync_version" && st.Verb == "INSERT":
+				r.okNT("C09/startup-writes", cons, c.ipos(st.Site), "legacy fork marker / version row")
+			default:
+				if why, ok := startupWriteAudited[fname(st.Fn)+" "+st.Verb+" "+st.Table]; ok {
+					r.audited("C09/startup-writes", cons, c.ipos(st.Site), why)
+				} else {
+					r.viol("C09/startup-writes", cons, c.ipos(st.Site), "start-up executes `"+oneLine(st.Text)+"`: restarting the daemon changes ledger state, so the result of a sync depends on where it was restarted")
+				}
+			}
+		}
+		r.Extra["startup_write_statements"] = n
+	}
 	r.rule("C09/config-stable", 1, "no activation/config global is written while the daemon runs")
 	n := 0
 	for _, a := range sa.Acc {
@@ -273,7 +305,30 @@ func windowSize(c *Ctx, r *Report, rule string) {
 				continue
 			}
 			if opStr == ">=" {
-				trimOK = true
+				// every series of the window is trimmed, not only those that receive a value: an enclosing map range
+				// must iterate the window (not the freshly read rates)
+				overRates := false
+				for _, ol := range naturalLoops(f) {
+					if ol == l || !ol.blocks[l.header] {
+						continue
+					}
+					for _, ins := range ol.header.Instrs {
+						nx, ok := ins.(*ssa.Next)
+						if !ok {
+							continue
+						}
+						if rg, ok := nx.Iter.(*ssa.Range); ok {
+							if sliceHas(rg.X, func(v ssa.Value) bool { return isCallTo(v, "SelectRates") }) {
+								overRates = true
+							}
+						}
+					}
+				}
+				if overRates {
+					bad = append(bad, fmt.Sprintf("the trim loop at %s runs only for the assets present in the rates just read: a series that misses a block keeps an entry a reloaded window would have dropped", c.pos(bo.Pos())))
+				} else {
+					trimOK = true
+				}
 			} else {
 				bad = append(bad, fmt.Sprintf("the trim loop at %s runs while len %s AveragePeriod: after the following append the incremental window holds AveragePeriod+1 entries while a reload collects AveragePeriod", c.pos(bo.Pos()), opStr))
 			}
@@ -351,4 +406,9 @@ func windowSize(c *Ctx, r *Report, rule string) {
 		bad = append(bad, "the reload path does not start at height - AveragePeriod + 1")
 	}
 	r.check(len(bad) == 0, rule, "GetPegNetRateAverages window bounds", c.pos(g.Pos()), "trim while len >= AveragePeriod, then append; reload from height-AveragePeriod+1", strings.Join(bad, "; "))
+}
+
+// start-up statements that write something other than schema objects, each with the reason it cannot change a result
+var startupWriteAudited = map[string]string{
+	"pegnet.txhistoryMigrateLookup1 INSERT pn_history_lookup": "one-off schema migration: copies the rows of the renamed lookup table into its replacement (same rows, new unique key); the lookup table is not read by block processing",
 }
